@@ -30,6 +30,7 @@ type State struct {
 	Meta   *Term // (Array Str Bool) denom metadata present
 	Ghost  map[string]Value
 	Perm   map[string]*Term
+	Empty  bool // a fresh chain: every store closed and empty, bank ledgers zero
 }
 
 var (
@@ -45,7 +46,7 @@ func newState() *State {
 }
 
 func (s *State) clone() *State {
-	n := &State{Stores: map[string]*Store{}, Bal: s.Bal, Sup: s.Sup, Acc: s.Acc, Meta: s.Meta, Ghost: map[string]Value{}, Perm: map[string]*Term{}}
+	n := &State{Stores: map[string]*Store{}, Bal: s.Bal, Sup: s.Sup, Acc: s.Acc, Meta: s.Meta, Ghost: map[string]Value{}, Perm: map[string]*Term{}, Empty: s.Empty}
 	for k, st := range s.Stores {
 		ns := &Store{Name: st.Name, Closed: st.Closed, Inited: st.Inited}
 		for _, en := range st.Entries {
@@ -63,7 +64,7 @@ func (s *State) clone() *State {
 }
 
 func (s *State) assign(o *State) {
-	s.Stores, s.Bal, s.Sup, s.Acc, s.Meta, s.Ghost, s.Perm = o.Stores, o.Bal, o.Sup, o.Acc, o.Meta, o.Ghost, o.Perm
+	s.Stores, s.Bal, s.Sup, s.Acc, s.Meta, s.Ghost, s.Perm, s.Empty = o.Stores, o.Bal, o.Sup, o.Acc, o.Meta, o.Ghost, o.Perm, o.Empty
 }
 
 // ---------- context ----------
@@ -137,7 +138,10 @@ func (e *Exec) storeOf(c *CtxV, coll *CollV) *Store {
 	}
 	if !st.Inited {
 		st.Inited = true
-		if n, ok := e.cfg.Stores[coll.Name]; ok {
+		if c.St.Empty {
+			st.Closed = true
+			st.Entries = nil
+		} else if n, ok := e.cfg.Stores[coll.Name]; ok {
 			st.Closed = true
 			e.initClosed(st, coll, n)
 		} else if e.cfg.Opts["emptystate"] == 1 {
